@@ -47,6 +47,9 @@ theorem readReg_loadExt (w : Width) (k : Kind) (v : Word w) : readReg w (loadExt
   cases w <;> cases k <;> simp only [readReg, loadExt, Width.bits] <;>
     first | exact se8 v | exact se16 v | exact se32 v | exact ze _ (by decide) v | simp
 
+@[simp] theorem bit8_true : bit8 true = 1#8 := rfl
+@[simp] theorem bit8_false : bit8 false = 0#8 := rfl
+@[simp] theorem one_ne_zero8 : (1#8 = 0#8) = False := by decide
 theorem bit8_ne_zero (b : Bool) : (bit8 b != 0#8) = b := by cases b <;> decide
 theorem bit8_ext32 (b : Bool) : (((bit8 b).setWidth 64).setWidth 32 == 0#32) = !b := by cases b <;> decide
 theorem write_al_zero (r : BitVec 64) (z : Bool) : ((writeReg .w8 r (bit8 z)).setWidth 8 == 0#8) = !z := by
@@ -66,6 +69,13 @@ theorem movzx_test (x : BitVec 64) :
   · have : y.setWidth 32 ≠ 0#32 := by
       intro h; apply hy; rw [← h2, h]; decide
     rw [beq_eq_false_iff_ne.mpr hy, beq_eq_false_iff_ne.mpr this]
+
+theorem zext8_32_eq_zero (x : BitVec 8) : (x.setWidth 32 = 0#32) = (x = 0#8) := by
+  have h2 : (x.setWidth 32).setWidth 8 = x := by
+    apply BitVec.eq_of_getLsbD_eq; intro i hi; simp [hi]
+  apply propext; constructor
+  · intro h; rw [← h2, h]; decide
+  · intro h; subst h; decide
 
 /-! ### `lock cmpxchg` -/
 
@@ -133,12 +143,120 @@ theorem TInv_mkThread {w : Width} (ops : List (Oper w)) : TInv (mkThread ops) :=
 
 theorem TInv_finish {w : Width} (th : Thread w) (r : Result w) : TInv (finish th r) := TInv_enter _
 
-theorem TInv_step {w : Width} (k : Kind) (c : Word w) (th : Thread w) (h : TInv th) :
-    TInv (stepThread k c th).th := by
-  unfold stepThread
+/-! ### `enter` / `finish` -/
+
+theorem pendingRes_enter {w : Width} (th : Thread w) : (enter th).pendingRes = none := by
+  unfold enter
+  cases h : th.todo with
+  | nil => simp [Thread.pendingRes, h]
+  | cons o rest => cases o <;> simp [Thread.pendingRes, Thread.succeeded, h, startPc]
+
+theorem todo_enter {w : Width} (th : Thread w) : (enter th).todo = th.todo := by
+  unfold enter
+  cases h : th.todo with
+  | nil => simp [h]
+  | cons o rest => cases o <;> simp [h]
+
+theorem results_enter {w : Width} (th : Thread w) : (enter th).results = th.results := by
+  unfold enter
+  cases h : th.todo with
+  | nil => rfl
+  | cons o rest => cases o <;> rfl
+
+theorem believes_enter {w : Width} (th : Thread w) : (enter th).believes = none := by
+  unfold enter
+  cases h : th.todo with
+  | nil => simp [Thread.believes, h]
+  | cons o rest => cases o <;> simp [Thread.believes, h, startPc]
+
+theorem pendingOps_enter {w : Width} (th : Thread w) : (enter th).pendingOps = th.todo := by
+  simp [Thread.pendingOps, pendingRes_enter, todo_enter]
+
+@[simp] theorem pendingRes_finish {w : Width} (th : Thread w) (r : Result w) : (finish th r).pendingRes = none :=
+  pendingRes_enter _
+@[simp] theorem todo_finish {w : Width} (th : Thread w) (r : Result w) : (finish th r).todo = th.todo.tail := by
+  simp [finish, todo_enter]
+@[simp] theorem results_finish {w : Width} (th : Thread w) (r : Result w) : (finish th r).results = th.results ++ [r] := by
+  simp [finish, results_enter]
+@[simp] theorem believes_finish {w : Width} (th : Thread w) (r : Result w) : (finish th r).believes = none :=
+  believes_enter _
+@[simp] theorem pendingOps_finish {w : Width} (th : Thread w) (r : Result w) : (finish th r).pendingOps = th.todo.tail := by
+  simp [finish, pendingOps_enter]
+
+/-! ### one step of one thread -/
+
+/-- what a step does to the bookkeeping of the stepping thread: a commit moves the head of the
+    uncommitted operations into the log together with the result the thread will report, and its
+    effect on the object is the sequential specification's; any other step leaves the object alone -/
+def Eff {w : Width} (c : Word w) (th : Thread w) (out : StepOut w) : Prop :=
+  match out.ev with
+  | some (.commit o r) =>
+      th.pendingOps = o :: out.th.pendingOps ∧
+      out.th.results ++ out.th.pendingRes.toList = th.results ++ th.pendingRes.toList ++ [r] ∧
+      o.spec c = some (out.cell, r)
+  | _ =>
+      out.cell = c ∧ out.th.pendingOps = th.pendingOps ∧
+      out.th.results ++ out.th.pendingRes.toList = th.results ++ th.pendingRes.toList
+
+/-- a logged access leaves the thread believing the object's current value (or nothing);
+    an unlogged step keeps its belief -/
+def Bel {w : Width} (th : Thread w) (out : StepOut w) : Prop :=
+  ∀ v, out.th.believes = some v →
+    (out.ev.isSome = true → v = out.cell) ∧ (out.ev = none → th.believes = some v)
+
+structure StepOK {w : Width} (c : Word w) (th : Thread w) (out : StepOut w) : Prop where
+  tinv : TInv out.th
+  eff : Eff c th out
+  bel : Bel th out
+
+macro "step_simp" : tactic => `(tactic|
+  (try simp only [Eff, Bel, pendingRes_finish, pendingOps_finish, results_finish, believes_finish, todo_finish]) <;>
+  simp [TInv, Eff, Bel, Thread.pendingOps, Thread.pendingRes, Thread.succeeded, Thread.believes, Oper.spec,
+        readReg_loadExt, readReg_writeReg, bit8_ne_zero, bit8_ext32, write_al_zero, movzx_test, zext8_32_eq_zero, TInv_finish, *] at *)
+
+macro "solve_case" : tactic => `(tactic|
+  (refine ⟨?_, ?_, ?_⟩ <;> first | exact TInv_finish _ _ | (step_simp <;> (try simp_all))))
+
+theorem stepOK {w : Width} (k : Kind) (c : Word w) (th : Thread w) (h : TInv th) :
+    StepOK c th (stepThread k c th) := by
   cases htodo : th.todo with
-  | nil => simpa [htodo] using h
+  | nil =>
+    simp only [stepThread, htodo]
+    refine ⟨h, ?_, ?_⟩ <;> simp [Eff, Bel]
   | cons o rest =>
-    cases o <;> cases hpc : th.pc <;> simp [TInv, htodo, hpc] at h ⊢ <;> sorry
+    cases o with
+    | rmw f ro =>
+      cases hpc : th.pc <;> simp only [stepThread, htodo, hpc]
+      case compute => cases hf : f th.old <;> solve_case
+      case cmpxchg =>
+        by_cases hc : c = readReg w th.rax
+        · rw [lockCmpxchg_eq hc]; solve_case
+        · rw [lockCmpxchg_ne hc]; solve_case
+      case je => cases hz : th.zf <;> solve_case
+      case jne => cases hz : th.zf <;> solve_case
+      all_goals (try solve_case)
+      all_goals (trace_state; sorry)
+    | cas e d =>
+      cases hpc : th.pc <;> simp only [stepThread, htodo, hpc]
+      case cmpxchg =>
+        by_cases hc : c = readReg w th.rax
+        · rw [lockCmpxchg_eq hc]; solve_case
+        · rw [lockCmpxchg_ne hc]; solve_case
+      case je => cases hz : th.zf <;> solve_case
+      all_goals (try solve_case)
+      all_goals (trace_state; sorry)
+    | xchg v =>
+      cases hpc : th.pc <;> simp only [stepThread, htodo, hpc]
+      case xchg => cases hn : w.narrow <;> solve_case
+      all_goals (try solve_case)
+      all_goals (trace_state; sorry)
+    | load =>
+      cases hpc : th.pc <;> simp only [stepThread, htodo, hpc]
+      all_goals (try solve_case)
+      all_goals (trace_state; sorry)
+    | store v =>
+      cases hpc : th.pc <;> simp only [stepThread, htodo, hpc]
+      all_goals (try solve_case)
+      all_goals (trace_state; sorry)
 
 end ChibiVerif.Atomics
